@@ -9,13 +9,14 @@
 (*   Lookup   w chunk  worker w called storage.get_event on these symbols   *)
 (*   Push     w i      worker w pushed event i to its subscribers           *)
 (*   Drop     w        worker w's connection went away                      *)
+(*   Join     w        worker w opened a new connection                     *)
 (*   End               everything in flight has been delivered              *)
 (* and the C20 formulas of Notifier.tla are evaluated after every line      *)
 (* (C20_AllDelivered at End).                                               *)
 (***************************************************************************)
 EXTENDS Integers, Sequences, FiniteSets, TLC, Json, TraceData
 
-VARIABLES todo, upnet, upbuf, dnnet, dnbuf, alive, looked, pushed, tid, l, bad
+VARIABLES todo, upnet, upbuf, dnnet, dnbuf, alive, looked, owed, joins, pushed, tid, l, bad
 
 N == INSTANCE Notifier WITH Workers <- TD_Workers, IdsOf <- TD_IdsOf, K <- TD_K, Exact <- TRUE
 
@@ -25,6 +26,7 @@ Empty == [w \in TD_Workers |-> <<>>]
 
 TraceInit == /\ tid \in DOMAIN Traces /\ l = 1 /\ bad = {}
              /\ todo = TD_IdsOf /\ alive = TD_Workers /\ looked = Empty /\ pushed = Empty
+             /\ owed = [w \in TD_Workers |-> {}] /\ joins = 0
              /\ upnet = Empty /\ upbuf = Empty /\ dnnet = Empty /\ dnbuf = Empty
 
 Verdict ==
@@ -39,21 +41,27 @@ TraceNext ==
     /\ l <= Len(Trace)
     /\ UNCHANGED <<upnet, upbuf, dnnet, dnbuf>>
     /\ CASE Line.a = "Announce" -> /\ todo' = [todo EXCEPT ![Line.w] = Tail(@)]
-                                   /\ UNCHANGED <<alive, looked, pushed>>
+                                   /\ owed' = [p \in TD_Workers |-> IF p # Line.w /\ p \in alive THEN owed[p] \cup {Line.i} ELSE owed[p]]
+                                   /\ UNCHANGED <<alive, looked, pushed, joins>>
          [] Line.a = "Lookup"   -> /\ looked' = [looked EXCEPT ![Line.w] = Append(@, Line.chunk)]
-                                   /\ UNCHANGED <<todo, alive, pushed>>
+                                   /\ UNCHANGED <<todo, alive, pushed, owed, joins>>
          [] Line.a = "Push"     -> /\ pushed' = [pushed EXCEPT ![Line.w] = Append(@, Line.i)]
-                                   /\ UNCHANGED <<todo, alive, looked>>
+                                   /\ UNCHANGED <<todo, alive, looked, owed, joins>>
          [] Line.a = "Drop"     -> /\ alive' = alive \ {Line.w}
-                                   /\ UNCHANGED <<todo, looked, pushed>>
-         [] Line.a = "End"      -> UNCHANGED <<todo, alive, looked, pushed>>
+                                   /\ owed' = [p \in TD_Workers |-> IF p = Line.w THEN {}
+                                                ELSE owed[p] \ {i \in N!Range0(TD_IdsOf[Line.w]) : ~\E k \in DOMAIN looked[p] : looked[p][k] = N!Sym(i)}]
+                                   /\ UNCHANGED <<todo, looked, pushed, joins>>
+         [] Line.a = "Join"     -> /\ alive' = alive \cup {Line.w} /\ joins' = joins + 1
+                                   /\ UNCHANGED <<todo, looked, pushed, owed>>
+         [] Line.a = "End"      -> UNCHANGED <<todo, alive, looked, pushed, owed, joins>>
     /\ bad' = bad \cup {<<n, l>> : n \in Verdict \cup
                   (IF Line.a = "End" /\ ~(N!C20_AllDelivered /\ \A w \in TD_Workers : Len(pushed[w]) = Len(looked[w]))
                    THEN {"C20_AllDelivered"} ELSE {})
+                  \cup (IF Line.a = "End" /\ ~N!C20_StayersServed THEN {"C20_StayersServed"} ELSE {})
                   \cup (IF Line.a = "Announce" /\ (todo[Line.w] = <<>> \/ Head(todo[Line.w]) # Line.i) THEN {"Conform"} ELSE {})}
     /\ l' = l + 1
     /\ tid' = tid
     /\ (l' > Len(Trace)) => PrintT("@@" \o ToJson([tid |-> tid, n |-> Len(Trace), bad |-> bad']))
 
-TraceSpec == TraceInit /\ [][TraceNext]_<<todo, upnet, upbuf, dnnet, dnbuf, alive, looked, pushed, tid, l, bad>>
+TraceSpec == TraceInit /\ [][TraceNext]_<<todo, upnet, upbuf, dnnet, dnbuf, alive, looked, owed, joins, pushed, tid, l, bad>>
 =============================================================================
